@@ -77,6 +77,14 @@ pub struct MemInner {
     /// (added for C17) `read_full` / `read_partial` of exactly these files fail with a backend error although the file is
     /// stored and listed (transient read error / throttling); empty = no read faults
     pub fail_reads_of: BTreeSet<(u8, Id)>,
+    /// (added for C02) `remove` of exactly these files fails with a backend error (the file stays): an interrupted clean-up
+    pub fail_removes_of: BTreeSet<(u8, Id)>,
+    /// (added for C02) serving order: files in this list are listed first, in this order, and `read_full` of the file at
+    /// position j waits (bounded) until the files at positions < j have been read, plus `serve_gap_ms` — controls the order in
+    /// which parallel streamed files (index files) ARRIVE at the consumer; empty = no control.  `served` is reset by `set_serve_order`.
+    pub serve_order: Vec<(u8, Id)>,
+    pub served: BTreeSet<(u8, Id)>,
+    pub serve_gap_ms: u64,
 }
 
 type Gate = Arc<dyn Fn(usize, &LogOp) + Send + Sync>;
@@ -147,6 +155,51 @@ impl MemBackend {
             _ = g.fail_reads_of.remove(&(ft_idx(tpe), id));
         }
     }
+    /// (added for C02) make every `remove` of file `(tpe, id)` fail (`on = true`) or work again (`on = false`)
+    pub fn set_fail_removes_of(&self, tpe: FileType, id: Id, on: bool) {
+        let mut g = self.inner.lock().unwrap();
+        if on {
+            _ = g.fail_removes_of.insert((ft_idx(tpe), id));
+        } else {
+            _ = g.fail_removes_of.remove(&(ft_idx(tpe), id));
+        }
+    }
+    /// (added for C02) list and serve the files `ids` of type `tpe` in this order (see `MemInner::serve_order`); an empty list
+    /// switches the control off.  `gap_ms`: pause between the read of one listed file and the release of the next.
+    pub fn set_serve_order(&self, tpe: FileType, ids: &[Id], gap_ms: u64) {
+        let mut g = self.inner.lock().unwrap();
+        g.serve_order = ids.iter().map(|id| (ft_idx(tpe), *id)).collect();
+        g.served.clear();
+        g.serve_gap_ms = gap_ms;
+    }
+    /// wait until every file before `(tpe, id)` in the serving order has been read (at most ~3 s)
+    fn wait_turn(&self, tpe: FileType, id: &Id) {
+        let key = (ft_idx(tpe), *id);
+        let (pos, gap) = {
+            let g = self.inner.lock().unwrap();
+            if g.serve_order.is_empty() || g.served.contains(&key) {
+                return;
+            }
+            match g.serve_order.iter().position(|k| *k == key) {
+                Some(p) if p > 0 => (p, g.serve_gap_ms),
+                _ => return,
+            }
+        };
+        let start = std::time::Instant::now();
+        loop {
+            {
+                let g = self.inner.lock().unwrap();
+                if g.serve_order.len() <= pos || g.serve_order[..pos].iter().all(|k| g.served.contains(k) || !g.map.contains_key(k)) {
+                    break;
+                }
+            }
+            if start.elapsed() > std::time::Duration::from_secs(3) {
+                return;
+            }
+            std::thread::sleep(std::time::Duration::from_millis(1));
+        }
+        std::thread::sleep(std::time::Duration::from_millis(gap));
+    }
     pub fn ids(&self, tpe: FileType) -> Vec<Id> {
         let t = ft_idx(tpe);
         self.inner.lock().unwrap().map.keys().filter(|(x, _)| *x == t).map(|(_, id)| *id).collect()
@@ -168,7 +221,9 @@ impl MemBackend {
         }
         let mut g = self.inner.lock().unwrap();
         let k = g.log.len();
-        let fail = g.fail_only == Some(k) || g.crash_at.is_some_and(|c| k >= c);
+        let fail = g.fail_only == Some(k)
+            || g.crash_at.is_some_and(|c| k >= c)
+            || (!op.write && !g.fail_removes_of.is_empty() && g.fail_removes_of.contains(&(ft_idx(op.tpe), op.id)));
         if fail {
             op.applied = false;
             g.log.push(op);
@@ -193,19 +248,21 @@ impl ReadBackend for MemBackend {
     }
     fn list_with_size(&self, tpe: FileType) -> RusticResult<Vec<(Id, u32)>> {
         let t = ft_idx(tpe);
-        Ok(self
-            .inner
-            .lock()
-            .unwrap()
-            .map
-            .iter()
-            .filter(|((x, _), _)| *x == t)
-            .map(|((_, id), b)| (*id, b.len() as u32))
-            .collect())
+        let g = self.inner.lock().unwrap();
+        let mut v: Vec<(Id, u32)> = g.map.iter().filter(|((x, _), _)| *x == t).map(|((_, id), b)| (*id, b.len() as u32)).collect();
+        if !g.serve_order.is_empty() {
+            // (added for C02) files of the serving order first, in that order (stable: the others keep their id order)
+            v.sort_by_key(|(id, _)| g.serve_order.iter().position(|k| *k == (t, *id)).unwrap_or(usize::MAX));
+        }
+        Ok(v)
     }
     fn read_full(&self, tpe: FileType, id: &Id) -> RusticResult<Bytes> {
+        self.wait_turn(tpe, id);
         let mut g = self.inner.lock().unwrap();
         g.reads.push((tpe, *id, false));
+        if !g.serve_order.is_empty() {
+            _ = g.served.insert((ft_idx(tpe), *id));
+        }
         if g.fail_reads_of.contains(&(ft_idx(tpe), *id)) {
             return Err(be_err("injected read failure"));
         }
